@@ -68,7 +68,9 @@ theorem decBody_docBody (info : Info) (index data : Bytes) (hi : ValidInfo info)
   rw [this]
 
 /-- **info_roundtrip** (and the two sections): the real reader's view of a written file -/
-theorem openTrie_write (b : Builder) (hi : ValidInfo b.info) (bytes : Bytes) (hw : b.write = some bytes) :
+theorem openTrie_write (b : Builder) (hi : ValidInfo b.info) (bytes : Bytes) (hw : b.write = some bytes)
+    (hv : ∀ recs data, b.buffers = some (recs, data) → recs.length < 4294967296 → data.length < 4294967296 →
+      validIndex (recs.flatMap recBytes) data = true) :
     ∃ recs data, b.buffers = some (recs, data) ∧
       bytes = encSeq (docBody b.info (recs.flatMap recBytes) data) ∧
       openTrie bytes = some { info := b.info, index := recs.flatMap recBytes, data := data } ∧
@@ -86,12 +88,31 @@ theorem openTrie_write (b : Builder) (hi : ValidInfo b.info) (bytes : Bytes) (hw
       have hbody := tlv_content_le tagSequence (docBody b.info (recs.flatMap recBytes) data)
       have hbl : (docBody b.info (recs.flatMap recBytes) data).length ≤ maxLen := by
         unfold encSeq at hlen; omega
+      have hrl : recs.length < 4294967296 := by
+        have e1 := tlv_content_le tagOctetString (recs.flatMap recBytes)
+        have hbl' := hbl
+        unfold docBody at hbl'
+        simp only [List.length_append] at hbl'
+        unfold encOctets at hbl'
+        rw [flatMap_recBytes_length] at e1
+        unfold maxLen at hbl'
+        omega
+      have hdl : data.length < 4294967296 := by
+        have e2 := tlv_content_le tagSequence data
+        have hbl' := hbl
+        unfold docBody at hbl'
+        simp only [List.length_append] at hbl'
+        unfold encSeq at hbl'
+        unfold maxLen at hbl'
+        omega
       refine ⟨recs, data, rfl, rfl, ?_, ?_, ?_⟩
       · unfold openTrie
         rw [if_neg (by omega)]
         have := decSeq_encSeq decBody _ [] _ (decBody_docBody b.info _ data hi hbl) hbl
         simp only [List.append_nil] at this
         rw [this]
+        simp only
+        rw [if_pos (hv recs data hb hrl hdl)]
       · have e1 := tlv_content_le tagOctetString (recs.flatMap recBytes)
         unfold docBody at hbl
         simp only [List.length_append] at hbl
